@@ -176,6 +176,8 @@ def env():
 
         def inFilter(self, irc, msg):
             n = H.cur
+            if self.i == 0:
+                H.seen.add(n)       # callback 0 is passive: it sees a message iff the handler stage returned normally
             H.log.append([1, n, self.i])
             row = self.spec['in'].get(n)
             self._do(irc, row)
@@ -237,9 +239,9 @@ def run_impl(inp):
     H, drivers, S, irclib = E['H'], E['drivers'], E['S'], E['irclib']
     H.cur, H.n, H.seen, H.log, H.fed, H.reconn, H.stage = -1, 0, set(), [], [], [], 'dispatch'
     H.addmsg = {r[0]: r for r in inp.get('addmsg', [])}
-    cbs = [E['Rec']()]
+    cbs = [E['TestCb'](0, {'in': {}, 'call': {}, 'out': [0, 0]})]
     for i, spec in enumerate(inp.get('cbs', [])):
-        cbs.append(E['TestCb'](i, {'in': {r[0]: r for r in spec['in']}, 'call': {r[0]: r for r in spec['call']},
+        cbs.append(E['TestCb'](i + 1, {'in': {r[0]: r for r in spec['in']}, 'call': {r[0]: r for r in spec['call']},
                                    'out': spec['out']}))
     irc = E['TIrc']('test', callbacks=cbs)
     irc.state.__class__ = E['FaultyState']
@@ -317,6 +319,10 @@ def run_impl(inp):
     obs = {'alive': alive, 'crashed': crashed, 'escapes': escapes, 'pongs': pongs, 'log': H.log,
            'fed': [f[0][:-1] for f in H.fed], 'connected': bool(drv.connected), 'inbuf': drv.inbuffer.decode('latin-1'),
            'outbuf': stuck}
+    sp = irc.state.supported
+    obs['sup'] = [None if 'chantypes' not in sp else ('NONE' if sp['chantypes'] is None else sp['chantypes']),
+                  None if 'channellen' not in sp else (sp['channellen'] is None),
+                  None if 'statusmsg' not in sp else ('NONE' if sp['statusmsg'] is None else sp['statusmsg'])]
     # oracle inputs for the model: outcome of the Irc handler stage per feedMsg call
     rows = []
     recon_d = {n for n, st in H.reconn if st == 'dispatch'}
@@ -383,7 +389,7 @@ def wire_chunks(inp):
 
 def wire_case(inp, dispatch_rows):
     dtab, vts = model_tables(inp)
-    cbs = [[spec['in'], spec['call'], spec['out']] for spec in inp.get('cbs', [])]
+    cbs = [[[], [], [0, 0]]] + [[spec['in'], spec['call'], spec['out']] for spec in inp.get('cbs', [])]     # callback 0: passive
     return [0, [wire_chunks(inp), dtab, vts, dispatch_rows, inp.get('addmsg', []), cbs]]
 
 
@@ -395,7 +401,9 @@ def wire_dom(inp, op=1):
 def dec_model(o):
     return {'alive': bool(o[0]), 'crashed': bool(o[1]), 'escapes': list(o[2]), 'pongs': wire.ls(o[3]),
             'log': [list(e) for e in o[4]], 'fed': wire.ls(o[5]), 'connected': bool(o[6]), 'inbuf': wire.s(o[7]),
-            'outbuf': wire.ls(o[8])}
+            'outbuf': wire.ls(o[8]),
+            'sup': [wire.o(o[9][0], lambda v: 'NONE' if v == [] else wire.s(v[0])), wire.o(o[9][1], bool),
+                    wire.o(o[9][2], lambda v: 'NONE' if v == [] else wire.s(v[0]))]}
 
 
 # ---------------------------------------------------------------- direct oracle
@@ -598,6 +606,27 @@ def fmt_line(rng):
     return l
 
 
+# ISUPPORT (005) tokens for the entries the per-message path reads before dispatch, with and without value
+ISUP_TOKENS = ['CHANTYPES', 'chantypes', 'ChanTypes', 'CHANTYPES=', 'CHANTYPES=#', 'CHANTYPES=#&', 'CHANTYPES=t', 'CHANTYPES==', 'CHANTYPES=P#a',
+               'CHANNELLEN', 'channellen', 'CHANNELLEN=', 'CHANNELLEN=50', 'CHANNELLEN=0', 'CHANNELLEN= 7 ', 'CHANNELLEN=+5', 'CHANNELLEN=1_0',
+               'CHANNELLEN=abc', 'CHANNELLEN=-1', 'CHANNELLEN=1__0', 'CHANNELLEN=\u0663', 'CHANNELLEN=5.0', 'CHANNELLEN=_5', 'CHANNELLEN=0x10',
+               'STATUSMSG', 'statusmsg', 'STATUSMSG=', 'STATUSMSG=@+', 'STATUSMSG=#', 'STATUSMSG=t@', 'PREFIX', 'NICKLEN', 'MODES', 'CHANMODES',
+               'CHANTYPE', 'CHANTYPES2', 'XCHANTYPES', 'CHANTYPES\u212a', '=', '=x', 'WHOX', 'EXCEPTS', 'NETWORK=x']
+AFTER_ISUP = ['PING :abc', 'PING #x', 'PING :#a b', 'PING t', 'PING :a,b', ':n!u@h PRIVMSG #chan :hi', ':n!u@h PRIVMSG @#chan :hi', ':n!u@h NOTICE +#chan :x',
+              ':n!u@h NOTICE test :x', ':n!u@h PRIVMSG :  #c', ':n!u@h JOIN #chan', ':irc.srv 001 test :Welcome', 'PING :', 'PING', ':n!u@h PRIVMSG t#x :y',
+              ':irc.srv 005 test CHANTYPES=# CHANNELLEN=50 :are supported', ':irc.srv 005 test CHANTYPES=# :are supported', 'PING \x07a', 'NOTICE']
+
+
+def isup_line(rng):
+    toks = [rng.choice(ISUP_TOKENS) for _ in range(rng.randint(0, 4))]
+    k = rng.random()
+    if k < 0.8:
+        return ':irc.srv 005 test ' + ' '.join(toks) + (' ' if toks else '') + ':are supported by this server'
+    if k < 0.9:
+        return ':irc.srv 005 test ' + ' '.join(toks)                     # no trailing text: the last token is not a token
+    return '005 ' + ' '.join(toks)
+
+
 def mutate(rng, l):
     k = rng.random()
     if k < 0.3:
@@ -614,6 +643,10 @@ def mutate(rng, l):
 
 
 CORPUS = [
+    # witness of the repaired finding C07.F45: an ISUPPORT token CHANTYPES without value must not stall the message path
+    {'chunks': [['d', ':srv 005 test CHANTYPES :are supported\r\n'], ['d', 'PING :abc\r\n']], 'cbs': [], 'addmsg': [], 'final_ping': 'abc'},
+    {'chunks': [['d', 'PING :before\r\n:srv 005 test CHANNELLEN chantypes=t# :are supported\r\nPING test\r\n:n!u@h PRIVMSG #c :x\r\n'],
+                ['d', 'PING :test2\r\n']], 'cbs': [], 'addmsg': [], 'final_ping': 'test2'},
     # a rejected line carrying utils.str.format directives: the log call of _read's per-line handler formats it
     {'chunks': [['d', ':%s\r\n'], ['d', 'PING :after\r\n']], 'cbs': [], 'addmsg': [], 'final_ping': 'after'},
     {'chunks': [['d', '@%r\r\n@time=%.2f :x PING y\r\n:%i%q \r\nPING :%s\r\n'], ['d', 'PING :after\r\n']], 'cbs': [], 'addmsg': [],
@@ -692,6 +725,15 @@ def gen_cases(ctx):
     for _ in range(ctx.n(400)):
         ls = [hostile_bytes(rng) if rng.random() < 0.7 else rng.choice(VALID) for _ in range(rng.randint(1, 6))]
         cases.append(('raw-bytes', mk_case(rng, ls)))
+    for tok in ISUP_TOKENS:
+        ls = [':irc.srv 005 test %s :are supported' % tok, rng.choice(AFTER_ISUP), rng.choice(AFTER_ISUP)]
+        cases.append(('isupport-single', mk_case(rng, ls, heavy=False, faults=False)))
+    for _ in range(ctx.n(500)):
+        ls = []
+        for _ in range(rng.randint(2, 8)):
+            r = rng.random()
+            ls.append(isup_line(rng) if r < 0.4 else (rng.choice(AFTER_ISUP) if r < 0.85 else rng.choice(VALID + ABSURD)))
+        cases.append(('isupport', mk_case(rng, ls, heavy=rng.random() < 0.3)))
     for l in MALFORMED_FMT + CLEAN_FMT:
         cases.append(('format-single', mk_case(rng, [l], heavy=False, faults=False)))
     for _ in range(ctx.n(500)):
@@ -741,6 +783,7 @@ def run(ctx):
     for kind, inp in cases:
         obss.append(check_case(ctx, kind, inp))
     check_format_scanner(ctx, cases)
+    check_int_scanner(ctx)
     outs = ctx.model([wire_case(inp, obs['_dispatch']) for (kind, inp), obs in zip(cases, obss)])
     for (kind, inp), obs, mo in zip(cases, obss, outs):
         if mo is None:
@@ -776,9 +819,29 @@ def check_format_scanner(ctx, cases):
             ctx.disagree(inp, o, want, 'argument-consuming directives of utils.str.format')
 
 
+def check_int_scanner(ctx):
+    """the model's int() (converter of CHANNELLEN) against the real one"""
+    import itertools
+    vals = sorted({t.split('=', 1)[1] for t in ISUP_TOKENS if '=' in t} |
+                  {''.join(p) for n in range(0, 5) for p in itertools.product(['1', '0', '_', '+', '-', ' ', '\u0663', 'a', '\t', '.'], repeat=n)})
+    outs = ctx.model([[4, v] for v in vals])
+    for v, o in zip(vals, outs):
+        if o is None:
+            continue
+        try:
+            int(v)
+            want = 1
+        except ValueError:
+            want = 0
+        inp = {'op': 'int-scan', 'line': v}
+        ctx.case('int-scanner', inp)
+        if o != want:
+            ctx.disagree(inp, o, want, 'int(value) succeeds')
+
+
 def replay(ctx, inp):
     env()
-    if inp.get('op') == 'format-scan':
+    if inp.get('op') in ('format-scan', 'int-scan'):
         return None
     return oracle(inp, run_impl(inp))
 
